@@ -30,3 +30,19 @@ Check (C05_reading_unique : forall p qls qt lxa lxn lxr qls' qt' lxa' lxn' lxr',
   reading p qls qt lxa lxn lxr -> reading p qls' qt' lxa' lxn' lxr' ->
   qls = qls' /\ qt = qt' /\ lxa = lxa' /\ lxn = lxn' /\ lxr = lxr').
 Print Assumptions C05_reading_unique.
+Check (C05_boundary_translation : forall p v, bytes_ok p -> parse p = Ok v ->
+  exists qls qt qe e1 e2 lxa lxn lxr,
+    question_of p qls qt CLASS_IN /\ cname_l p 12 qls qe /\
+    records_at p (qe + 4) (map fst lxa) e1 /\ records_at p e1 (map fst lxn) e2 /\
+    records_at p e2 (map fst lxr) (length p) /\
+    Forall (fun rx => rdata_at p (fst rx) (snd rx)) (lxa ++ lxn ++ lxr) /\
+    hdr_ancount p = Ok (N.of_nat (length lxa)) /\ hdr_nscount p = Ok (N.of_nat (length lxn)) /\
+    hdr_arcount p = Ok (N.of_nat (length lxr)) /\
+    let q0 := firstn 12 p ++ plain_question qls qt CLASS_IN in
+    let lx := lxa ++ lxn ++ lxr in
+    let q := q0 ++ concat (map plain_record lx) in
+    uncompress_with_previous_offset p 12 = Ok (q, 12) /\
+    uncompress_with_previous_offset p (length p) = Ok (q, length q) /\
+    forall l1 rx l2, lx = l1 ++ rx :: l2 ->
+      uncompress_with_previous_offset p (rv_off (fst rx)) = Ok (q, length (q0 ++ concat (map plain_record l1)))).
+Print Assumptions C05_boundary_translation.
